@@ -451,6 +451,11 @@ func runTS(line []byte, rec *recorder) {
 				want = len(kept)
 				dmx := astits.NewDemuxer(context.Background(), bytes.NewReader(stream), astits.DemuxerOptPacketSize(188), astits.DemuxerOptPacketSkipper(skip))
 				m3 := astits.NewMuxer(context.Background(), &recWriter{})
+				type heldPkt struct {
+					e M
+					q *astits.Packet
+				}
+				var held []heldPkt
 				for {
 					var q *astits.Packet
 					var perr error
@@ -462,7 +467,8 @@ func runTS(line []byte, rec *recorder) {
 					}
 					if got < len(kept) {
 						e := evs[kept[got]]
-						e["class"], e["perr"], e["got"] = "history-skipper", "nil", projTSPacket(q, true)
+						e["class"], e["perr"] = "history-skipper", "nil"
+						held = append(held, heldPkt{e, q}) // looked at once the whole stream has been read: a returned packet stays what it was
 						w3 := &recWriter{}
 						m3 = astits.NewMuxer(context.Background(), w3)
 						var rerr error
@@ -474,6 +480,9 @@ func runTS(line []byte, rec *recorder) {
 					got++
 				}
 				_ = m3
+				for _, h := range held {
+					h.e["got"] = projTSPacket(h.q, true)
+				}
 				for i := range evs {
 					if evs[i]["class"] == "history" { // dropped by the skipper: the write direction only
 						evs[i]["ev"] = "wvec"
